@@ -124,68 +124,25 @@ theorem setSlice_step1_rejects (c : Codec V) (d : Bits) (s e : Option Int) (vals
 
 /-! ### a[start:stop:step] = a -/
 
-/-- Outside the region `setslice_self_extended`, assigning the Array itself is assigning its items. -/
-theorem setSliceSelf_eq (c : Codec V) (hL : 0 < c.w) (d : Bits) (s e st : Option Int)
-    (hreg : setslice_self_extended c d s e st = false) :
+/-- Assigning the Array to a slice of itself is assigning (a snapshot of) its items, for every start/stop/step. -/
+theorem setSliceSelf_eq (c : Codec V) (hL : 0 < c.w) (d : Bits) (s e st : Option Int) :
     setSliceSelf c d s e st = setSlice c d s e st (items c d) := by
-  obtain ⟨bs, t, hbs, ht, rfl, hch, htr, hlen, hit⟩ := blocks_view c hL d
   unfold setSliceSelf
-  unfold setslice_self_extended at hreg
-  rw [hlen] at hreg ⊢
-  rw [iter_eq_items c hL _]
-  generalize hk : st.getD 1 = k at hreg ⊢
-  by_cases h0 : k = 0
+  rw [iter_eq_items c hL d]
+  by_cases h0 : st.getD 1 = 0
   · unfold setSlice
-    simp [h0, hk]
-  · by_cases h1 : k = 1
-    · simp [h0, h1]
-    · unfold setSlice
-      rw [hlen, hk, hit]
-      simp only [h0, h1, if_false, List.length_map]
-      by_cases hl : bs.length = Py.rangeLen (Py.sliceIndices s e k bs.length).1 (Py.sliceIndices s e k bs.length).2.1 k
-      · rw [if_pos hl, if_pos hl]
-        have hsm : bs.length < 2 := by
-          by_contra hc
-          have h2 : 2 ≤ bs.length := by omega
-          simp [h0, h1, h2, ← hl] at hreg
-        have hrl : (Py.rangeList (Py.sliceIndices s e k bs.length).1 (Py.sliceIndices s e k bs.length).2.1 k).length = bs.length := by
-          rw [rangeList_length, ← hl]
-        generalize Py.rangeList _ _ _ = idx at hrl ⊢
-        match bs, hbs, hrl, hsm with
-        | [], _, hrl, _ =>
-          have : idx = [] := List.eq_nil_of_length_eq_zero hrl
-          subst this
-          simp [overwriteSelfLoop, overwriteLoop]
-        | [b0], hbs0, hrl, _ =>
-          match idx, hrl with
-          | [i0], _ =>
-            have hr := readAt_block c [b0] t hbs0 0 (by simp)
-            simp only [Nat.mul_zero, List.getElem_cons_zero, List.flatten_cons, List.flatten_nil, List.append_nil] at hr
-            simp [overwriteSelfLoop, overwriteLoop, List.range_succ, hr]
-        | _ :: _ :: _, _, _, hsm => exfalso; simp at hsm; omega
-      · rw [if_neg hl, if_neg hl]
+    simp [h0]
+  · simp [h0]
 
-/-- `a[start:stop:step] = a` = the list assignment `l[start:stop:step] = l` — outside the region
-    `setslice_self_extended` (an extended slice covering the whole Array of ≥ 2 items, e.g. `a[::-1] = a`).
-    Full statement (no `hreg`) fails on the pinned tree: see `setslice_self_extended_witness`. -/
-theorem setSliceSelf_refines_partial (c : Codec V) (hL : 0 < c.w) (hwf : c.WF) (d : Bits) (s e st : Option Int)
-    (hfit : ∀ v ∈ items c d, fits c v = true) (hreg : setslice_self_extended c d s e st = false) :
+/-- `a[start:stop:step] = a` = the list assignment `l[start:stop:step] = l` (`a[::-1] = a` reverses), trailing bits kept. -/
+theorem setSliceSelf_refines (c : Codec V) (hL : 0 < c.w) (hwf : c.WF) (d : Bits) (s e st : Option Int)
+    (hfit : ∀ v ∈ items c d, fits c v = true) :
     (setSliceSelf c d s e st).view c = ((PyL.setSlice (items c d) s e st (items c d)).map fun l => ((), l)) ∧
     trailing c.w (setSliceSelf c d s e st).data = trailing c.w d := by
   have hv : (items c d).all (fits c) = true := by
     rw [List.all_eq_true]; exact hfit
-  rw [setSliceSelf_eq c hL d s e st hreg]
+  rw [setSliceSelf_eq c hL d s e st]
   exact ⟨setSlice_refines c hL hwf d s e st _ hv, setSlice_trailing c hL hwf d s e st _ hv⟩
-
-/-- Known finding `setslice-self-extended`: `a = Array('uint2', [1, 2]); a[::-1] = a` gives `[1, 1]` (item 1 is read
-    after it was overwritten); `l = [1, 2]; l[::-1] = l` gives `[2, 1]`. -/
-theorem setslice_self_extended_witness :
-    let c := mkCodec .u "uint" 2 1 .int false
-    setslice_self_extended c [false, true, true, false] none none (some (-1)) = true ∧
-    items c (setSliceSelf c [false, true, true, false] none none (some (-1))).data = [.int 1, .int 1] ∧
-    PyL.setSlice (items c [false, true, true, false]) none none (some (-1)) (items c [false, true, true, false])
-      = .ok [.int 2, .int 1] := by
-  decide
 
 /-! ### del a[start:stop:step] -/
 
@@ -304,5 +261,8 @@ example : items (mkCodec .u "uint" 2 1 .int false)
 example : (delSlice (mkCodec .u "uint" 2 1 .int false) [false, true, true, false, true, true, false, false, true] (some 3) none (some (-2))).data
     = [false, true, true, true, true] := by decide
 example : (reverse (mkCodec .u "uint" 2 1 .int false) [false, true, true, false, true, true]).data = [true, true, true, false, false, true] := by decide
+-- `a = Array('uint2', [1, 2]); a[::-1] = a` gives `[2, 1]`
+example : items (mkCodec .u "uint" 2 1 .int false)
+    (setSliceSelf (mkCodec .u "uint" 2 1 .int false) [false, true, true, false] none none (some (-1))).data = [.int 2, .int 1] := by decide
 
 end BM.C14
